@@ -201,33 +201,24 @@ func refsOf(mt string, data []byte) (refs []ref, ok bool) {
 }
 
 // Protected reports whether dg is referred to, directly or through stored
-// manifests, by some tag of the repository (immutable-tags mode). uncertain is
-// set when the answer depends on interpreting a stored manifest under a media
-// type that differs from the one it was stored with (the descriptor that
-// refers to it and the stored object disagree): the model then accepts either
-// outcome.
+// manifests (each interpreted by the media type it is stored with; a subject
+// counts as a reference), by some tag of the repository (immutable-tags mode).
+// The second result is kept for callers that want to tolerate a model
+// uncertainty; it is always false now.
 func (r *Repo) Protected(dg string) (prot, uncertain bool) {
 	seen := map[string]bool{}
-	var walk func(d string, viaMT string) bool
-	walk = func(d string, viaMT string) bool {
+	var walk func(d string) bool
+	walk = func(d string) bool {
 		if d == dg {
 			return true
 		}
 		man, ok := r.Mans[d]
-		if !ok {
+		if !ok || seen[d] {
 			return false
 		}
-		if viaMT != man.MT {
-			uncertain = true
-		}
-		key := d + "|" + viaMT
-		if seen[key] {
-			return false
-		}
-		seen[key] = true
-		refs, ok := refsOf(viaMT, man.Data)
+		seen[d] = true
+		refs, ok := refsOf(man.MT, man.Data)
 		if !ok {
-			uncertain = true
 			return false
 		}
 		for _, x := range refs {
@@ -235,7 +226,7 @@ func (r *Repo) Protected(dg string) (prot, uncertain bool) {
 				return true
 			}
 			if x.kind == "manifest" || x.kind == "subject" {
-				if walk(x.digest, x.desc.MediaType) {
+				if walk(x.digest) {
 					return true
 				}
 			}
@@ -243,11 +234,11 @@ func (r *Repo) Protected(dg string) (prot, uncertain bool) {
 		return false
 	}
 	for _, td := range r.Tags {
-		if walk(td.Digest, td.MediaType) {
-			return true, uncertain
+		if walk(td.Digest) {
+			return true, false
 		}
 	}
-	return false, uncertain
+	return false, false
 }
 
 func sortedAfter(keys []string, after string) []string {
